@@ -4,7 +4,7 @@
    Model/C20_Fanout.v.  "History" = any list of operations (any length, any order, any arguments);
    the conditions [guarded .. g h init] restrict histories only by what the chain clock and the
    scheduler guarantee (stated with each theorem). *)
-From Verif Require Import Lib.Base Lib.Sched Model.C20_Bookkeeping Model.C20_Fanout Proofs.C20_Bookkeeping Proofs.C20_Fanout Proofs.C20_Unbounded Model.C20_Jobs Proofs.C20_Jobs Model.C20_Setup Proofs.C20_Setup Model.C20_Requests Proofs.C20_Requests.
+From Verif Require Import Lib.Base Lib.Sched Model.C20_Bookkeeping Model.C20_Fanout Proofs.C20_Bookkeeping Proofs.C20_Fanout Proofs.C20_Unbounded Model.C20_Jobs Proofs.C20_Jobs Model.C20_Setup Proofs.C20_Setup Model.C20_Requests Proofs.C20_Requests Model.C20_BidApi Proofs.C20_BidApi.
 
 (* ---------------------------------------------------------------------------------------------- *)
 (* attested (services/attester/standard): in every history whose attestation jobs start in slot
@@ -219,6 +219,57 @@ Theorem C20_bids_tree_unbounded :
     size (bids (run spe false (auctions n 0) init)) = N.of_nat n.
 Proof. exact bids_unbounded. Qed.
 Print Assumptions C20_bids_tree_unbounded.
+
+(* ---------------------------------------------------------------------------------------------- *)
+(* builderBidsCache under requests for slots in ANY order.  The slot of a bid request is not only the
+   slot of one of our proposals (AuctionBlock): the builder API that Vouch serves (BuilderBid) holds
+   an auction and caches the result for whatever slot it is asked for, far-future and far-past slots
+   included.  With NO condition on the history: after every operation the cache holds no slot twice,
+   nothing older than 32 slots before the slot of the latest cacheBid, hence at most 33 slots up to
+   that slot; and every slot held (in particular every slot beyond it) has been asked for. *)
+Theorem C20_bids_any_order :
+  forall spe h,
+    let st := run spe true h init in
+    NoDup (bids st) /\
+    (forall k, In k (bids st) -> g_auc st <= k + bid_window /\ In (OAuction k) h) /\
+    size (filter (fun k => k <=? g_auc st) (bids st)) <= bid_window + 1.
+Proof. exact bids_any_order. Qed.
+Print Assumptions C20_bids_any_order.
+
+(* ... and with the requests of the builder API among the operations (answered from the cache when the
+   slot is cached, otherwise an auction whose result is cached): what the check runs. *)
+Theorem C20_bids_api_any_order :
+  forall spe (h : list xop),
+    let st := xrun spe true h init in
+    NoDup (bids st) /\
+    (forall k, In k (bids st) -> g_auc st <= k + bid_window /\ In k (requested h)) /\
+    size (filter (fun k => k <=? g_auc st) (bids st)) <= bid_window + 1.
+Proof. exact bids_api_any_order. Qed.
+Print Assumptions C20_bids_api_any_order.
+
+(* a request that is answered from the cache writes nothing *)
+Theorem C20_bid_request_hit_writes_nothing :
+  forall spe (fx : bool) st s, mem s (bids st) = true -> xstep spe fx st (XBid s) = st.
+Proof. exact xbid_hit. Qed.
+Print Assumptions C20_bid_request_hit_writes_nothing.
+
+(* cacheBid that walks the cache only when the slot is later than the latest slot it has tidied for
+   (a high-water mark kept in the service): ONE request for a far-future slot and the cache is never
+   tidied again; for every n, n ordinary slots later it holds n + 1 slots. *)
+Theorem C20_bids_high_water_refuted :
+  forall n far, N.of_nat n <= far -> 0 < far ->
+    size (snd (hw_run (far :: upto n 0))) = N.of_nat n + 1.
+Proof. exact hw_unbounded. Qed.
+Print Assumptions C20_bids_high_water_refuted.
+
+(* non-vacuity: a far-future request (1000000), a far-past one (3), then slots 100..139: the code as
+   it is keeps 33 slots of the window and the far-future one; slot 3 went with the first later cacheBid *)
+Example C20_bids_any_order_example :
+  let h := [XBid 50; XBid 1000000; XBid 3; XBid 3; XBase (OAuction 60)] ++ map XBid (upto 40 100) in
+  let st := xrun 32 true h init in
+  size (bids st) = 34 /\ mem 1000000 (bids st) = true /\ mem 3 (bids st) = false /\ g_auc st = 139 /\
+  size (snd (hw_run (requested h))) = 43.
+Proof. vm_compute. repeat split. Qed.
 
 (* ---------------------------------------------------------------------------------------------- *)
 (* scheduler job table: in every history (either variant) a job in the table was set up by a
